@@ -38,10 +38,12 @@ func init() {
 			"(D4) reject paths: every success return of the entry point passes the accepting side of the group-reference lookup, the group record lookup, the envelope box, the message-key lookup (by CID or precomputed) and the payload box; every decoder error (protobuf, CID, Ed25519 key, nonce/key array) in the push scope rejects. " +
 			"(D5) reference agreement: sealer and reference store compute the reference with the same function, the sealer from (group, headers.DevicePk, headers.Counter), the store from (group, sender parameter, a counter derived from the 'first' parameter and the window size); the stored value is the group public key; Put, Delete and Get of a reference build the datastore key with the same constructor; the reference digest depends on the group secret, the sender and the counter; the window is two-sided; every caller that opens a message through the log or through a push slides the window with the (DevicePk, Counter) pair of that same message. " +
 			"(D6) message-field agreement: the sealer fills Cid/DevicePk/Counter/Sig/EncryptedPayload of the push message from id/headers.DevicePk/headers.Counter/headers.Sig/env.Message, seals the marshalled push message with the group secret (the opener opens with the group's shared secret, the envelope's own Nonce and Box) and stores in the envelope the nonce and box of that very Seal call; the headers rebuilt on the push path map field to same-named field; helpers shared by the log path and the push path receive device key, group key and counter in the same argument positions on both. " +
+			"(D7) atomic window update: behind UpdateOutOfStoreGroupReferences the read of the recorded first/last counters, every Put/Delete of a reference and the write of the new first/last record run with the store's message mutex write-locked on every call path, and the mutex is not released between two of them (read-modify-write of the window in one critical section). " +
+			"(D8) the window follows authenticated messages only: every call of UpdateOutOfStoreGroupReferences with a message's Counter is dominated on every call path by the accepting side of the call that opened and authenticated that message (OpenEnvelopePayload on the log path, a function whose success returns all pass an accepted Verify on the push path). " +
 			"Not decided: the window statement for all histories (loop arithmetic over runtime data), absence of network access, that NaCl/Ed25519 reject every altered bit, equality of payload bytes for all sizes.",
 		Trusted:     []string{"nacl/secretbox, Ed25519 (libp2p crypto), HKDF/SHA3", "go/packages+go/ssa (x/tools v0.29.0)", "go-datastore Get/Put/Delete semantics", "effects identified by the namespace constants of pkg/secretstore"},
 		Assumptions: []string{"the 'newly decrypted' flag is only stored where C01.D2 says (checked there for the whole module, here again for the push scope)", "interface calls on SecretStore resolve to the module implementation"},
-		Floors:      map[string]int{"D1": 8, "D2": 5, "D3": 7, "D4": 14, "D5": 16, "D6": 17},
+		Floors:      map[string]int{"D1": 8, "D2": 5, "D3": 7, "D4": 14, "D5": 16, "D6": 17, "D7": 5, "D8": 2},
 		Run:         runC14,
 	})
 }
@@ -576,6 +578,8 @@ func runC14(c *Ctx) {
 	c14D4(c, cs, openO, pushScope)
 	refFn := c14D5(c, ei, cs, openO, sealO, updR, pushScope)
 	c14D6(c, ei, cs, openO, sealO, openP, pushOnly, pushAll, logAll, refFn)
+	c14D7(c, ei, updR)
+	c14D8(c, openO, openP, updR)
 }
 
 // ---- D1 consumes nothing ---------------------------------------------------
@@ -1706,4 +1710,195 @@ func c14D6(c *Ctx, ei *effectInfo, cs *c14Sites, openO, sealO, openP *ssa.Functi
 	_ = ei
 	_ = cs
 	_ = refFn
+}
+
+// ---- D7 the reference window is updated in one write-locked critical section -----------
+
+// c14D7: in the reference store (everything behind UpdateOutOfStoreGroupReferences) the read of
+// the recorded first/last counters, every Put/Delete of a reference and the write of the new
+// first/last record hold the store's message mutex in write mode on every call path, and the
+// mutex is not released between two of them: the update is a read-modify-write of the window.
+func c14D7(c *Ctx, ei *effectInfo, updR *ssa.Function) {
+	w := c.W
+	cls := messageLockClass(w)
+	if cls == "" {
+		c.undecided("D7", fnName(updR)+"+lock", updR.Pos(), "the SecretStore implementation has no single sync.RWMutex field: lock class of the message mutex not determined")
+		return
+	}
+	li := w.locks()
+	onWindow := func(e Effect) bool {
+		for _, p := range strings.Split(e.NS, "|") {
+			if p == nsHint || p == nsHintCtr {
+				return true
+			}
+		}
+		return false
+	}
+	scope := w.reachableFuncs([]*ssa.Function{updR}, 4)
+	n := 0
+	for _, fn := range sortedFuncs(scope) {
+		if p := fnPkg(fn); p == nil || p.Path() != pkgSecret {
+			continue
+		}
+		sites := ei.sitesWith(fn, onWindow)
+		for _, s := range sites {
+			if !s.Direct {
+				continue
+			}
+			n++
+			c.analysed(fn)
+			in := s.Instr.(ssa.Instruction)
+			construct := fnName(fn) + "+" + s.Effects[0].Op + "[" + s.Effects[0].NS + "]+locked"
+			if li.heldAt(in).holds(cls, 'W') {
+				c.ok("D7", construct, posOf(s.Instr), "runs with %s write-locked on every call path", cls)
+				continue
+			}
+			chain := unlockedOnSomePath(w, in, cls, nil)
+			c.fail("D7", construct, posOf(s.Instr), "%s of the reference window runs without %s write-locked (call path %s): two concurrent window updates (a push and a log delivery of the same sender) interleave, the recorded first/last no longer describes the stored references and pushes inside the window are refused", s.Effects[0], cls, strings.Join(chain, " -> "))
+		}
+		// one critical section: no release of the mutex between two window effects
+		var unlocks []ssa.Instruction
+		for _, b := range fn.Blocks {
+			for _, in := range b.Instrs {
+				if ci, ok := in.(ssa.CallInstruction); ok {
+					if op, ok := lockOpOf(ci); ok && !op.Acquire && !op.Deferred && op.Class == cls {
+						unlocks = append(unlocks, in)
+					}
+				}
+			}
+		}
+		if len(sites) >= 2 || fn == updR {
+			split := ""
+			var at token.Pos
+			for _, u := range unlocks {
+				for _, a := range sites {
+					for _, b := range sites {
+						if instrReaches(a.Instr.(ssa.Instruction), u) && instrReaches(u, b.Instr.(ssa.Instruction)) {
+							split = fmt.Sprintf("%s is released at %s between %s (%s) and %s (%s)", cls, c.pos(posOf(u)), a.Effects[0], c.pos(posOf(a.Instr)), b.Effects[0], c.pos(posOf(b.Instr)))
+							at = posOf(u)
+						}
+					}
+				}
+			}
+			if len(sites) > 0 {
+				n++
+				if split == "" {
+					c.ok("D7", fnName(fn)+"+one-critical-section", fn.Pos(), "the mutex is not released between the window's read and its writes")
+				} else {
+					c.fail("D7", fnName(fn)+"+one-critical-section", at, "the window update is split into several critical sections: %s; another update can run in between on a stale first/last record", split)
+				}
+			}
+		}
+	}
+	if n == 0 {
+		c.undecided("D7", fnName(updR)+"+window-effects", updR.Pos(), "no datastore effect on the push-hint namespaces behind UpdateOutOfStoreGroupReferences")
+	}
+}
+
+// ---- D8 the window follows authenticated messages only ----------------------------------
+
+// c14D8: every call of UpdateOutOfStoreGroupReferences whose counter is a message's Counter
+// field (headers of a log message, or an opened push message) is dominated, on every module
+// call path, by the accepting side of the call that opened and authenticated that message:
+// SecretStore.OpenEnvelopePayload on the log path, a function all of whose success returns
+// pass an accepted Verify on the push path. A payload that is going to be rejected must not
+// move the sender's window.
+func c14D8(c *Ctx, openO, openP, updR *ssa.Function) {
+	w := c.W
+	cg := w.callGraph()
+	vc := newVerifierCache(w, checkRole{Name: "authenticated-open", Match: func(fn *ssa.Function, ci ssa.CallInstruction) []ssa.Value {
+		cc := ci.Common()
+		k := calleeKey(cc)
+		switch {
+		case k == keyVerify:
+			if v := boolVerdict(ci); v != nil {
+				return []ssa.Value{v}
+			}
+		case k == keyOpenPayIface || staticCallee(cc) == openP:
+			if v := errVerdict(ci); v != nil {
+				return []ssa.Value{v}
+			}
+		}
+		return nil
+	}})
+	afterAuth := func(in ssa.Instruction) bool {
+		fn := in.Parent()
+		for _, b := range fn.Blocks {
+			for _, x := range b.Instrs {
+				call, ok := x.(*ssa.Call)
+				if !ok {
+					continue
+				}
+				vs := vc.role.Match(fn, call)
+				if len(vs) == 0 {
+					if cal := staticCallee(call.Common()); cal != nil && cal.Blocks != nil && inModule(cal) && errResultIndex(cal.Signature) >= 0 && vc.info(cal).IsVerifier {
+						if v := errVerdict(call); v != nil {
+							vs = []ssa.Value{v}
+						}
+					}
+				}
+				for _, v := range vs {
+					for _, e := range edgesOfVerdict(v).Accept {
+						if edgeDominates(e, in.Block()) {
+							return true
+						}
+					}
+				}
+			}
+		}
+		return false
+	}
+	var walk func(in ssa.Instruction, seen map[*ssa.Function]bool, chain []string) []string
+	walk = func(in ssa.Instruction, seen map[*ssa.Function]bool, chain []string) []string {
+		fn := in.Parent()
+		here := append([]string{fnName(fn)}, chain...)
+		if afterAuth(in) {
+			return nil
+		}
+		if seen[fn] {
+			return nil
+		}
+		callers := cg.callers[fn]
+		if len(callers) == 0 || (fn.Object() != nil && fn.Object().Exported()) {
+			return here
+		}
+		seen[fn] = true
+		defer delete(seen, fn)
+		for _, cs := range callers {
+			if bad := walk(cs.Instr.(ssa.Instruction), seen, here); bad != nil {
+				return bad
+			}
+		}
+		return nil
+	}
+	n := 0
+	for _, fn := range w.ModFuncs {
+		for _, u := range callsIn(fn, func(k string, cc *ssa.CallCommon) bool { return k == keyUpdRefsIface || staticCallee(cc) == updR }) {
+			if _, isCall := u.(*ssa.Call); !isCall {
+				continue
+			}
+			var ctr ssa.Value
+			for _, a := range u.Common().Args {
+				if c14TypeName(a.Type()) == "uint64" {
+					ctr = a
+				}
+			}
+			base, field := c14FieldOf(ctr)
+			if base == nil || field != "Counter" || !(isNamed(base.Type(), pkgTypes, "MessageHeaders") || isNamed(base.Type(), pkgTypes, "OutOfStoreMessage")) {
+				continue // not a message's counter (registration starts the window at the announced chain key)
+			}
+			n++
+			c.analysed(fn)
+			what := "log message"
+			if isNamed(base.Type(), pkgTypes, "OutOfStoreMessage") {
+				what = "push message"
+			}
+			bad := walk(u.(ssa.Instruction), map[*ssa.Function]bool{}, nil)
+			c.check(bad == nil, "D8", fnName(fn)+"+window-after-open", posOf(u), "the window is moved only after the "+what+" was opened and authenticated",
+				"the reference window is re-centred on the counter of a "+what+" that has not (yet) been opened and authenticated (call path "+strings.Join(bad, " -> ")+"): a payload that is then rejected - beyond the precomputed keys, or forged by a member with an arbitrary counter - has already moved the sender's window, and genuine payloads are refused as unknown references")
+		}
+	}
+	if n == 0 {
+		c.undecided("D8", fnName(openO)+"+window-after-open", openO.Pos(), "no call of UpdateOutOfStoreGroupReferences with a message counter found")
+	}
 }
